@@ -417,7 +417,7 @@ func runTransfer(t *testing.T, ksc KScenario, res *KResult) {
 			rec := w.Log[p.Dir][p.Ord]
 			res.Logf("  %d %s {%s-> %v}", p.SentNS/1000, p.String(), rec.Fate, rec.Delivered)
 		}
-		judgeFailure(w, sc, res, connErr[0], connErr[1], true, horizon)
+		judgeFailure(w, &sc.Cfg, &sc.Net, len(sc.Faults), res, connErr[0], connErr[1], true, horizon)
 		return
 	}
 	res.Probe("handshake-ok")
@@ -641,18 +641,18 @@ func runTransfer(t *testing.T, ksc KScenario, res *KResult) {
 	}
 	if !complete || cause[0] != nil || cause[1] != nil {
 		_ = failedAt
-		judgeFailure(w, sc, res, cause[0], cause[1], false, horizon)
+		judgeFailure(w, &sc.Cfg, &sc.Net, len(sc.Faults), res, cause[0], cause[1], false, horizon)
 	} else {
 		res.Probe("all-complete")
 	}
 }
 
 // judgeFailure decides whether an incomplete run is explained by the injected faults (legitimate) or is a liveness violation.
-func judgeFailure(w *World, sc *TransferScenario, res *KResult, cerr, serr error, handshake bool, horizon time.Duration) {
+func judgeFailure(w *World, cfg *WConfig, netc *WNet, nExplicit int, res *KResult, cerr, serr error, handshake bool, horizon time.Duration) {
 	now := w.NowNS()
 	nfaults := len(w.Fired)
-	if sc.Net.Explicit && len(w.Fired) == 0 {
-		nfaults = len(sc.Faults)
+	if netc.Explicit && len(w.Fired) == 0 {
+		nfaults = nExplicit
 	}
 	for side, err := range []error{cerr, serr} {
 		if err == nil {
@@ -668,9 +668,9 @@ func judgeFailure(w *World, sc *TransferScenario, res *KResult, cerr, serr error
 		case errors.As(err, &ie):
 			res.Probe("idle-timeout")
 			// legitimate only if that endpoint was starved of undamaged datagrams for its idle period
-			idle := time.Duration(min(nzIdle(sc.Cfg.IdleMS[0]), nzIdle(sc.Cfg.IdleMS[1]))) * time.Millisecond
+			idle := time.Duration(min(nzIdle(cfg.IdleMS[0]), nzIdle(cfg.IdleMS[1]))) * time.Millisecond
 			if handshake {
-				idle = hsIdle(&sc.Cfg, side)
+				idle = hsIdle(cfg, side)
 			}
 			if gap := time.Duration(w.starvedFor(side, now)); gap < idle-20*time.Millisecond {
 				res.Fail("idle timeout although undamaged datagrams kept arriving", "side %d: last good delivery %v before the failure, idle period %v", side, gap, idle)
@@ -680,7 +680,7 @@ func judgeFailure(w *World, sc *TransferScenario, res *KResult, cerr, serr error
 			}
 		case errors.As(err, &he):
 			res.Probe("handshake-timeout")
-			if gap := time.Duration(w.starvedFor(side, now)); gap < hsIdle(&sc.Cfg, side)-20*time.Millisecond && nfaults <= 3 && len(sc.Net.Outages) == 0 && sc.Net.MTU == [2]int{} {
+			if gap := time.Duration(w.starvedFor(side, now)); gap < hsIdle(cfg, side)-20*time.Millisecond && nfaults <= 3 && len(netc.Outages) == 0 && netc.MTU == [2]int{} {
 				res.Fail("handshake timed out although the network was (almost) fault-free", "side %d: %d faults, last good delivery %v ago", side, nfaults, gap)
 			}
 		case errors.As(err, &te):
@@ -688,7 +688,7 @@ func judgeFailure(w *World, sc *TransferScenario, res *KResult, cerr, serr error
 			if te.Remote {
 				who = 1 - side
 			}
-			if kf := wKnownC12(w, &sc.Cfg, who, uint64(te.ErrorCode)); kf != "" && !wOraclesEnabled("C01")["C12"] {
+			if kf := wKnownC12(w, cfg, who, uint64(te.ErrorCode)); kf != "" && !wOraclesEnabled("C01")["C12"] {
 				// a known finding of another property (C12) ended this run: neither passed nor violated here
 				res.Blocked = kf
 				continue
@@ -706,7 +706,7 @@ func judgeFailure(w *World, sc *TransferScenario, res *KResult, cerr, serr error
 			// horizon reached during Dial/Accept
 			if handshake {
 				lastFault := w.lastFaultNS()
-				if now-lastFault > int64(2*hsIdle(&sc.Cfg, side)+10*time.Second) {
+				if now-lastFault > int64(2*hsIdle(cfg, side)+10*time.Second) {
 					res.Fail("Dial/Accept still pending long after the last fault", "side %d", side)
 				}
 			}
